@@ -335,6 +335,8 @@ func doDump(p *Prog, what, rules string) {
 		for _, t := range p.InterceptorTypes() {
 			fmt.Printf("interceptor %s\n", typeKey(t))
 		}
+	case "j6":
+		probeJ6(p)
 	case "orphans":
 		// obligations no claimed property selects (debugging view: what the engines decide that nobody claims)
 		var rl []string
